@@ -38,6 +38,10 @@ func (x *Exec) registerAxioms() error {
 				text := body.S
 				if len(binders) > 0 {
 					text = fmt.Sprintf("(forall (%s) %s)", strings.Join(binders, " "), body.S)
+					if x.lastAxiomPattern != "" {
+						// trig(body, t1, t2, ...): the axiom is instantiated only where all the trigger terms occur
+						text = fmt.Sprintf("(forall (%s) (! %s :pattern (%s)))", strings.Join(binders, " "), body.S, x.lastAxiomPattern)
+					}
 				}
 				used := map[string]bool{}
 				collectSymbols(text, used)
@@ -78,6 +82,15 @@ func (x *Exec) closedFormula(sf *SpecFile, l *Lemma, bind bool) (T, []string) {
 			t = declConst("lv "+l.Name+" "+v.Name, sort)
 		}
 		ctx.env[v.Name] = SV{t: t, typ: typ}
+	}
+	x.lastAxiomPattern = ""
+	if tc, ok := l.E.(*ECall); ok && tc.Fun == "trig" && len(tc.Args) >= 2 {
+		var ps []string
+		for _, a := range tc.Args[1:] {
+			ps = append(ps, ctx.value(ctx.eval(a)).S)
+		}
+		x.lastAxiomPattern = strings.Join(ps, " ")
+		return ctx.boolOf(tc.Args[0]), binders
 	}
 	return ctx.boolOf(l.E), binders
 }
